@@ -794,6 +794,16 @@ class RedlineEngine:
             )
             if nested_edit is not None:
                 return self._apply_single_edit_indexed(nested_edit)
+        elif final_new:
+            # New text that goes strictly inside a pending insertion becomes part of it (the insertion
+            # is replaced by its text with the new text in place); next to the mark it would be misplaced.
+            around_id = active_mapper.insertion_around(effective_start_idx)
+            if around_id:
+                nested_edit = self._proxy_for_insertion(
+                    active_mapper, effective_start_idx, 0, final_new, edit.comment, ins_id=around_id
+                )
+                if nested_edit is not None:
+                    return self._apply_single_edit_indexed(nested_edit)
 
         proxy_edit = DocumentEdit(target_text=final_target, new_text=final_new, comment=edit.comment)
         proxy_edit._match_start_index = effective_start_idx
@@ -803,13 +813,20 @@ class RedlineEngine:
         return self._apply_single_edit_indexed(proxy_edit)
 
     def _proxy_for_insertion(
-        self, active_mapper: DocumentMapper, start_idx: int, length: int, new_text: str, comment: Optional[str]
+        self,
+        active_mapper: DocumentMapper,
+        start_idx: int,
+        length: int,
+        new_text: str,
+        comment: Optional[str],
+        ins_id: Optional[str] = None,
     ) -> Optional[DocumentEdit]:
         """
         A range that lies inside one pending insertion is rewritten as a replacement of that whole
         insertion (its text with the range replaced), addressed in raw coordinates. None otherwise.
         """
-        ins_id = active_mapper.insertion_enclosing_range(start_idx, start_idx + length)
+        if ins_id is None:
+            ins_id = active_mapper.insertion_enclosing_range(start_idx, start_idx + length)
         if not ins_id:
             return None
         ins_spans = [s for s in active_mapper.spans if s.ins_id == ins_id]
